@@ -18,15 +18,24 @@ sys.path.insert(0, os.path.join(ROOT, "harness"))
 import translate  # noqa: E402
 
 src = open(os.path.join(ROOT, "lean", "JS", "Props", "Tie.lean")).read()
-models = dict(re.findall(r"theorem tie_(\w+) \(env : Env\).*?=\s*(kw\w+)", src, flags=re.S))
-terms = dict(translate.translate_all(os.environ.get("JS_REPO", "/repo")))
+found = re.findall(r"theorem (tie2?)_(\w+) \(env : Env\).*?=\s*(kw\w+)", src, flags=re.S)
+repo = os.environ.get("JS_REPO", "/repo")
+terms = dict(translate.translate_all(repo))
+terms2 = dict(translate.translate_all2(repo))
 out = {}
-for fn, model in sorted(models.items()):
+for thm, fn, model in sorted(found):
     if fn.endswith("_needs_shape"):
         continue
-    if fn not in terms or terms[fn].startswith(".unsupported"):
+    t1, t2 = terms.get(fn, ""), terms2.get(fn, "")
+    if (thm == "tie" and (not t1 or t1.startswith(".unsupported"))) or (thm == "tie2" and (not t2 or t2.startswith(".unsupported"))):
         sys.exit("no translated source for %s" % fn)
-    out[fn] = {"sha1": hashlib.sha1(terms[fn].encode()).hexdigest(), "model": "JS." + model}
+    out[fn] = {"sha1": hashlib.sha1((t1 + "|" + t2).encode()).hexdigest(), "model": "JS." + model, "thm": thm}
+# the type predicates of _types.py (JS/Props/TieTypes.lean): all tied to the model through TyFn.apply
+import translate_types  # noqa: E402
+for name, term in translate_types.translate_all(os.environ.get("JS_REPO", "/repo")):
+    if term.startswith(".unsupported"):
+        sys.exit("no translated source for the predicate %s" % name)
+    out["_types." + name] = {"sha1": hashlib.sha1(term.encode()).hexdigest(), "model": "JS.TyFn.apply"}
 path = os.path.join(ROOT, "lean", "JS", "Proofs", "TieFingerprints.json")
 with open(path, "w") as f:
     json.dump(out, f, indent=1, sort_keys=True)
